@@ -17,7 +17,8 @@ from verifkit.ref.symbolic import RefModel
 ID = "C09"
 RULE = ("models with 1-5 parameters in which every parameter enters the right-hand side distinguishably; histories of 4-10 "
         "assignments over the forms {list, tuple, ndarray, column ndarray, permuted (name,value) pairs, dict by name, dict by fresh "
-        "sympy.Symbol, dict by the model's own symbol, partial dict by name / by symbol} with all values distinct, interleaved "
+        "sympy.Symbol, dict by the model's own symbol, partial dict by name / by symbol} with all values distinct (12 % boundary values: exactly 0 as int / "
+        "float / numpy scalar, whole numbers as int, negative), interleaved "
         "with rejected inputs (unknown name in dict / in pairs, short and long lists, wrong-size arrays, over-long dict). "
         "Non-trivial: history with >=1 permuted pair list, >=1 partial update and >=1 format switch; distinct by hash of the history")
 ASSUMPTIONS = ["the sequential shadow map (last value supplied per name by an accepted assignment) is the specification",
@@ -35,7 +36,7 @@ def plan(tier):
 
 
 def floors(tier):
-    f = {"nontrivial": 100, "counter:twin_assignments": 300, "counter:assignments": 2000, "counter:rejected_inputs": 300, "counter:evaluations": 4000}
+    f = {"nontrivial": 100, "counter:twin_assignments": 300, "counter:boundary_values": 300, "counter:zero_values": 80, "counter:assignments": 2000, "counter:rejected_inputs": 300, "counter:evaluations": 4000}
     for k in FORMS:
         f["counter:form_" + k] = 50
     for k in BAD:
@@ -80,11 +81,22 @@ def run_case(rng, idx, tier, lane, ctx):
     x = [round(rng.uniform(1.1, 2.0), 4) for _ in spec["states"]]
     shadow = {}
     used_vals = set()
+    pending = set()       # boundary values handed out within the current step
 
     def fresh_val():
+        # 12 %: boundary values a user may legitimately assign (exactly zero as int / float / numpy scalar, whole numbers as int,
+        # a negative value), never equal to a value currently bound to another name (values identify the binding)
+        if rng.random() < 0.12:
+            v = rng.choice([0, 0.0, np.float64(0.0), 1, 2, np.int64(3), -0.5])
+            if all(float(v) != float(w) for w in list(shadow.values()) + list(twin_shadow.values())) and float(v) not in pending:
+                counters["boundary_values"] = counters.get("boundary_values", 0) + 1
+                if float(v) == 0.0:
+                    counters["zero_values"] = counters.get("zero_values", 0) + 1
+                pending.add(float(v))
+                return v
         while True:
             v = round(rng.uniform(0.1, 3.0), 5)
-            if v not in used_vals:
+            if v not in used_vals and v not in (1.0, 2.0, 3.0):
                 used_vals.add(v)
                 return v
 
@@ -105,6 +117,7 @@ def run_case(rng, idx, tier, lane, ctx):
     forms_seen = set()
     nsteps = rng.randint(4, 10)
     for step in range(nsteps):
+        pending.clear()
         choices = FORMS if shadow else FORMS[:8]
         form = rng.choice(choices)
         names = rng.sample(P, rng.randint(1, len(P))) if form.startswith("partial") else list(P)
